@@ -354,6 +354,60 @@ def _kills(f):
     return out
 
 
+def _task_coroutines(cls, attrs):
+    """attribute -> name of the method whose coroutine the task runs (from the spawn site)"""
+    out = {}
+    for a, (f, n) in attrs.items():
+        for x in ast.walk(n.value):
+            if isinstance(x, ast.Attribute) and isinstance(x.value, ast.Name) and x.value.id == 'self' and \
+                    cls.lookup(x.attr) is not None and cls.lookup(x.attr).is_async:
+                out[a] = x.attr
+    return out
+
+
+def _kills_on_cancel(cls, method_name):
+    """What a task running cls.<method> cancels when it is itself cancelled: kills in its finally blocks and
+    CancelledError handlers, including the methods called from there."""
+    f = cls.lookup(method_name)
+    out = set()
+    if f is None:
+        return out
+    blocks = []
+    for t in walk_local(f.node):
+        if isinstance(t, ast.Try):
+            blocks.extend(t.finalbody)
+            for h in t.handlers:
+                if h.type is None or 'Cancel' in ast.unparse(h.type) or 'BaseException' in ast.unparse(h.type):
+                    blocks.extend(h.body)
+    holder = ast.Module(body=blocks, type_ignores=[])
+
+    class _F:
+        node = holder
+    out |= _kills(_F)
+    for n in ast.walk(holder):
+        if isinstance(n, ast.Call) and isinstance(n.func, ast.Attribute) and isinstance(n.func.value, ast.Name) and \
+                n.func.value.id == 'self' and cls.lookup(n.func.attr) is not None:
+            for g in _reachable_methods(cls, n.func.attr):
+                out |= _kills(g)
+    return out
+
+
+def _close_transitively(cls, attrs, killed):
+    """cancelling a task runs its finally blocks: add what those cancel, to a fixpoint"""
+    coro = _task_coroutines(cls, attrs)
+    killed = set(killed)
+    changed = True
+    while changed:
+        changed = False
+        for a in list(killed):
+            if a in coro:
+                more = _kills_on_cancel(cls, coro[a]) - killed
+                if more:
+                    killed |= more
+                    changed = True
+    return killed
+
+
 def rule_e(ctx):
     rep = ctx.report
     slots = ctx.slots
@@ -370,6 +424,8 @@ def rule_e(ctx):
         killed_on_loss = set()
         for f in _reachable_methods(cls, '_on_connection_closed'):
             killed_on_loss |= _kills(f)
+        killed_on_close = _close_transitively(cls, attrs, killed_on_close)
+        killed_on_loss = _close_transitively(cls, attrs, killed_on_loss)
         for a, (f, n) in sorted(attrs.items()):
             total += 1
             ok = a in killed_on_close
